@@ -23,7 +23,8 @@ RULE_TEXT = ('runs = deterministic sweep over every (phase step x position 0..2 
              'signature (status, mode, shape, fired primary (phase, step, position, kind), fired cleanup fault).')
 REACH_PROBES = ['real_validation_failure', 'cleanup_prev_SETUP', 'cleanup_prev_ACT', 'cleanup_prev_BEFORE_ASSERT', 'cleanup_prev_ASSERT',
                 'double_fault', 'act_mode', 'status_FAIL', 'status_SKIP', 'probe_failure', 'atc_spawn_error',
-                'multi_armed', 'cli_entry', 'no_fault_complete']
+                'multi_armed', 'cli_entry', 'no_fault_complete', 'layout_sections_in_other_order',
+                'layout_section_declared_twice', 'layout_part_in_included_file']
 
 KINDS = {
     'symbols': ['undefined_symbol', 'raise_exc'],
@@ -244,6 +245,11 @@ def random_plan(seed, tier):
         entry = 'structured'  # a real validation failure is attributed by the line named in the structured result
     plan = _base_plan(seed, tier, case, status, act_mode, faults, entry, procs,
                       knob=kn.choice([1, 2, 3, 5, 8, 13, 64, 4096, 8192]))
+    # where the lines stand in the file(s) is no business of the protocol: sections declared in any order, declared
+    # twice, parts of them in included files
+    lay = kernel.stream(seed, 'layout')
+    if lay.random() < 0.5:
+        case['layout'] = casegen.random_layout(lay)
     return plan
 
 
@@ -251,8 +257,7 @@ def random_plan(seed, tier):
 
 def execute(plan, scratch):
     w = world_mod.World(os.path.join(scratch, 'w'))
-    text = casegen.render_case(plan['case'], plan['status'])
-    w.write('home/t.case', text)
+    text = casegen.write_case(w, plan['case'], plan['status'])
     sim = kernel.Sim(plan, w)
     with patches.installed(sim):
         if plan['entry'] == 'cli':
@@ -360,6 +365,13 @@ def _annotate(plan, hist):
         probes['cli_entry'] = 1
     if not fired and plan['status'] != 'SKIP':
         probes['no_fault_complete'] = 1
+    lay = plan['case'].get('layout') or {}
+    if lay.get('order'):
+        probes['layout_sections_in_other_order'] = 1
+    if lay.get('split'):
+        probes['layout_section_declared_twice'] = 1
+    if lay.get('include'):
+        probes['layout_part_in_included_file'] = 1
     hist['probes'] = probes
     hist['armed'] = armed
     hist['fired_log'] = hist['fired']
